@@ -164,91 +164,88 @@ def selection(repo, chk):
 
 
 def summary_frame(repo, chk):
+    """create_final_dataframe evaluated for an MI heuristic and for a non-MI one (assignments substituted in program order, so a name denotes
+    the value it has *at that point*): the frame returned is the per-feature median of the rows, sorted by the score, descending; for an MI
+    heuristic its score column is then replaced by (s - min)/(max - min) **of that aggregated column**; nothing else touches the scores."""
+    from ..match import run_paths, within_vocabulary
+    from ..terms import walk_term
     fn = repo.func(TS, 'create_final_dataframe')
     m = fn.module
     rows, heur = fn.params[0], fn.params[1]
-    body = [s for s in fn.node.body if not (isinstance(s, ast.Expr) and isinstance(s.value, ast.Constant))]
-    r = returns(fn)
-    if len(r) != 1:
-        chk.unsure('C18.2', 'R15', fn.site(), 'return final_df', 'single return expected')
-        return
-    pseudo = None
-    if isinstance(r[0].value, ast.Name):
-        df = r[0].value.id
-    else:
-        # `return <chain on the frame>`: treat the returned expression as the last re-binding of the frame
-        root = r[0].value
-        while isinstance(root, (ast.Call, ast.Attribute, ast.Subscript)):
-            root = root.func if isinstance(root, ast.Call) else root.value
-        if not isinstance(root, ast.Name):
-            chk.unsure('C18.2', 'R15', fn.site(r[0]), ast.unparse(r[0])[:100], 'cannot find the frame the returned expression is built from')
-            return
-        df = root.id
-        pseudo = ast.copy_location(ast.Assign(targets=[ast.Name(df, ast.Store())], value=r[0].value), r[0])
-        ast.fix_missing_locations(pseudo)
-    E = lambda s: expected_term(m, s)
+    E = lambda s_, b_=None: expected_term(m, s_, b_ or {})
     col = "f'Score {" + heur + "}'"
+    colt = E(col)
     base = f"pandas.DataFrame({rows}, columns=['Feature', {col}])"
-    assigns = [s for s in own_nodes(fn.node) if isinstance(s, ast.Assign) and any(isinstance(t, ast.Name) and t.id == df for t in s.targets)]
-    if pseudo is not None:
-        assigns.append(pseudo)
-        body = body + [pseudo]
-    assigns.sort(key=lambda s: s.lineno)
-    cn = Canon(m, Scope(None), inline=False)
-    # symbolic value of df after each top-level assignment
-    cur = None
-    grouped_at = None
-    chain_ok = False
     chains = []
     for by in (f"by={col}", col, f"by=[{col}]"):
         for g in ("'Feature'", "['Feature']"):
             chains.append(E(f"{base}.groupby({g}).median().reset_index().sort_values({by}, ascending=False)"))
             chains.append(E(f"{base}.groupby({g}, as_index=False).median().sort_values({by}, ascending=False)"))
             chains.append(E(f"{base}.groupby({g}).median().sort_values({by}, ascending=False).reset_index()"))
-    for a in assigns:
-        if a not in body:
+    pred = lambda e: isinstance(e, ast.Name) and e.id == heur
+    seen = {}
+    for hval, is_mi in (('MI-numba-randomized', True), ('surrogate-SGD', False)):
+        paths = run_paths(fn, pred, hval, max_forks=2)
+        if not paths or len(paths) != 1 or paths[0][1].unknown is not None or paths[0][1].returned is None:
+            node = paths[0][1].unknown if paths and paths[0][1].unknown is not None else None
+            chk.unsure('C18.2', 'R15', fn.site(node) if node is not None else fn.site(), f'heuristic {hval!r}', 'create_final_dataframe could not be evaluated as one path for this heuristic')
             continue
-        t = Canon(m, Scope(fn), inline=True, bound={df: cur} if cur is not None else {}).t(a.value)
-        cur = t
-        if t in chains:
-            chain_ok = True
-            grouped_at = a
-    if not chain_ok:
-        chk.bad('C18.2a', 'R15', fn.site(assigns[0]) if assigns else fn.site(), ast.unparse(assigns[-1]).replace('\n', ' ')[:200] if assigns else '',
-                f"the summary must be DataFrame(rows, columns=[Feature, Score h]).groupby('Feature').median() sorted by the score, descending, with nothing applied to the scores before the median; found {show(cur)[:260] if cur else None}")
-        return
-    chk.ok('C18.2a', 'R15', fn.site(grouped_at), ast.unparse(grouped_at).replace('\n', ' ')[:200], 'per-feature median of the label scores, descending')
-    # no column stores before the median
-    early = [s for s in own_nodes(fn.node) if isinstance(s, (ast.Assign, ast.AugAssign)) and s.lineno < grouped_at.lineno and any(isinstance(t, ast.Subscript) for t in (s.targets if isinstance(s, ast.Assign) else [s.target]))]
-    chk.expect(not early, 'C18.2b', 'R1', fn.site(early[0]) if early else fn.site(grouped_at), ast.unparse(early[0])[:120] if early else 'no store before the median', 'raw scores reach the median unmodified', 'scores are modified before the per-feature median is taken')
-    # normalisation
-    ifs = [s for s in body if isinstance(s, ast.If) and s.lineno > grouped_at.lineno]
-    norm_ifs = [s for s in ifs if term_of(fn, s.test, inline=False) == E(f"'MI' in {heur}")]
-    if len(norm_ifs) != 1 or norm_ifs[0].orelse:
-        chk.bad('C18.3a', 'R14', fn.site(ifs[0]) if ifs else fn.site(), ast.unparse(ifs[0].test) if ifs else "if 'MI' in heuristic", "min-max normalisation must be applied, after the median and the sort, exactly when 'MI' is in the heuristic name")
-        return
-    ni = norm_ifs[0]
-    stores = [s for s in ni.body if isinstance(s, ast.Assign) and isinstance(s.targets[0], ast.Subscript)]
-    okn = False
-    if len(stores) == 1:
-        st = stores[0]
-        sc = Scope(fn)
-        t = Canon(m, sc, inline=True).t(st.value)
-        c = f"{df}[{col}]"
-        forms = [E(f"({c} - {c}.min()) / ({c}.max() - {c}.min())")]
-        tgt_ok = Canon(m, sc, inline=True).t(st.targets[0]) == E(c)
-        okn = t in forms and tgt_ok
-        if okn:
-            chk.expect(okn, 'C18.3b', 'R15', fn.site(st), ast.unparse(st)[:160], 'scores become (s - min)/(max - min) of the aggregated scores: best 1, worst 0, order kept',
-                       f'normalisation must be (s - min)/(max - min) over the aggregated score column; found {show(t)[:200]}')
+        res = paths[0][1]
+        site = fn.site(res.returned) if hasattr(res.returned, 'lineno') else fn.site()
+        stores = [u for u in res.updates]
+        rt = term_of(fn, res.returned, inline=False)
+        # the aggregated frame: what is returned, or (when its score column was stored to afterwards) the frame the store went to
+        frame_t = term_of(fn, stores[0]['target'], inline=False) if stores else rt
+        if frame_t in chains:
+            seen.setdefault('C18.2a', []).append(hval)
         else:
-            chk.expect_term(t, forms, 'C18.3b', 'R15', fn.site(st), ast.unparse(st)[:160], 'scores become (s - min)/(max - min) of the aggregated scores: best 1, worst 0, order kept',
-                            f'normalisation must be (s - min)/(max - min) over the aggregated score column; found {show(t)[:200]}')
-    else:
-        chk.bad('C18.3b', 'R15', fn.site(ni), ast.unparse(ni).replace('\n', ' ')[:160], 'normalisation block does not rewrite the score column exactly once')
-    # nothing re-sorts / re-binds after the normalisation
-    later = [a for a in assigns if a.lineno > ni.lineno]
-    chk.expect(not later, 'C18.3c', 'R1', fn.site(later[0]) if later else fn.site(r[0]), ast.unparse(later[0])[:100] if later else 'return final_df', 'the normalised frame is returned as is', 'the frame is re-bound after normalisation')
+            chk.expect_term(frame_t, chains, 'C18.2a', 'R15', site, f'{hval}: {show(frame_t)[:160]}', '',
+                            f"the summary must be DataFrame(rows, columns=[Feature, Score h]).groupby('Feature').median() sorted by the score, descending, with nothing applied to the scores before the median; found {show(frame_t)[:220]}")
+            continue
+        if not is_mi:
+            if stores or res.calls:
+                nd = (stores[0]['node'] if stores else res.calls[0]['node'])
+                chk.bad('C18.3a', 'R14', fn.site(nd), ast.unparse(nd)[:100], "min-max normalisation must be applied exactly when 'MI' is in the heuristic name: here the scores of a non-MI heuristic are rewritten")
+            else:
+                seen.setdefault('C18.3a', []).append(hval)
+            continue
+        # MI: exactly one store into the score column of the aggregated frame
+        if not stores:
+            chk.bad('C18.3a', 'R14', site, f'heuristic {hval!r}: no store into the score column', "min-max normalisation must be applied, after the median and the sort, exactly when 'MI' is in the heuristic name")
+            continue
+        seen.setdefault('C18.3a', []).append(hval)
+        if len(stores) != 1 or stores[0]['kind'] != 'store1':
+            chk.bad('C18.3b', 'R15', fn.site(stores[0]['node']), ast.unparse(stores[0]['node'])[:120], 'normalisation block does not rewrite the score column exactly once')
+            continue
+        u = stores[0]
+        key = term_of(fn, u['key'], inline=False)
+        val = term_of(fn, u['value'], inline=False)
+        G = frame_t
+        c_ = ('sub', G, colt)
+        want = [expected_term(m, '(C - C.min()) / (C.max() - C.min())', {'C': c_}), expected_term(m, '(C - numpy.min(C)) / (numpy.max(C) - numpy.min(C))', {'C': c_}),
+                expected_term(m, '(C - C.min()) / numpy.ptp(C)', {'C': c_})]
+        if key == colt and val in want:
+            seen.setdefault('C18.3b', []).append(hval)
+        else:
+            # the same formula over another column / frame (e.g. the raw rows instead of the medians) is a real difference
+            raw = ('sub', E(base), colt)
+            over_raw = any(x == raw for x in walk_term(val)) and key == colt
+            if over_raw:
+                chk.bad('C18.3b', 'R15', fn.site(u['node']), ast.unparse(u['node'])[:140], 'the minimum / maximum of the normalisation are taken over the raw rows instead of the per-feature medians: the best feature no longer gets 1 and the worst no longer gets 0')
+            else:
+                chk.expect_term(val, want, 'C18.3b', 'R15', fn.site(u['node']), ast.unparse(u['node'])[:140], '', f'normalisation must be (s - min)/(max - min) over the aggregated score column; found {show(val)[:200]}', extra_ok=(key == colt))
+        if getattr(res.returned, '_seq', None) is not None and u.get('seq') is not None and False:
+            pass
+        # what is returned is that frame (not re-bound / re-sorted afterwards)
+        ok_ret = rt == frame_t or isinstance(res.returned, ast.Name)
+        chk.expect(ok_ret, 'C18.3c', 'R1', site, ast.unparse(res.returned)[:100], 'the normalised frame is returned as is', 'the frame is re-bound after normalisation', soft=True)
+    titles = {'C18.2a': 'per-feature median of the label scores, descending', 'C18.3a': "normalisation exactly when 'MI' is in the heuristic name", 'C18.3b': 'scores become (s - min)/(max - min) of the aggregated scores: best 1, worst 0, order kept'}
+    done = {o.oid for o in chk.obs}
+    for oid, t_ in titles.items():
+        if oid in seen and oid not in done:
+            chk.ok(oid, 'R15', fn.site(), ', '.join(seen[oid]), t_, inspected=len(seen[oid]))
+    if 'C18.2a' in seen and 'C18.2a' not in done:
+        chk.ok('C18.2b', 'R1', fn.site(), 'the frame that is grouped is built directly from the rows', 'raw scores reach the median unmodified')
 
 
 def interactions(repo, chk):
